@@ -141,12 +141,36 @@ def incoming_msg(dul, fields, data, pc_id, max_pdu=16384):
     f.setdefault(0x0800, 0x0001 if data else refcmd.NO_DATASET)
     cmd = refcmd.encode(f)
     frags = dg.ref_fragments(cmd, data, max_pdu, pc_id)
-    dec = fsm.DIMSEDecoder(dul.accepted_contexts, dul.store_in_file, dul.get_file_cb)
+    try:
+        dec = fsm.DIMSEDecoder(dul.accepted_contexts, dul.store_in_file, dul.get_file_cb)
+    except TypeError:
+        # the reassembler is not constructed like that in this tree (an internal interface, free to change): take
+        # the message from the real provider instead
+        return _incoming_via_provider(dul, frags)
     for fr in frags:
         dec.process(pdu.PDataTfPDU.decode(refpdu.enc_pdu({'t': 4, 'r': 0, 'pdvs': [fr]})))
     if dec.receiving:
         raise RuntimeError('reference message did not complete')
     return dec.msg, dec.pc_id
+
+
+def _incoming_via_provider(dul, frags):
+    """The same message as the real provider loop indicates it (vf/simnet.py, acceptor in Sta6 with the contexts of
+    this association)."""
+    from . import simnet, convs
+    from .common import HarnessError
+    script = [{'k': 'seg', 'data': refpdu.enc_pdu(convs.RQ_SPEC), 'eager': False},
+              {'k': 'user', 'prim': convs.user_prim({'pdu': convs.AC_SPEC})}]
+    script += [{'k': 'seg', 'data': refpdu.enc_pdu({'t': 4, 'r': 0, 'pdvs': [fr]}), 'eager': True} for fr in frags]
+    sim = simnet.run_scenario('acceptor', script, store_in_file=dul.store_in_file, get_file_cb=dul.get_file_cb,
+                              accepted_contexts=dul.accepted_contexts, budget=40000 + 20 * len(script))
+    inds = [i for i in sim.indications() if isinstance(i, tuple)]
+    if len(inds) != 1:
+        aborted = [i for i in sim.indications() if getattr(i, 'pdu_type', None) == 7]
+        if aborted:
+            return aborted[0]          # the provider could not take the message: it indicates an abort
+        raise HarnessError('reference message produced %d indications through the provider (%r)' % (len(inds), sim.outcome[:1]))
+    return inds[0]
 
 
 class Factory(object):
@@ -223,6 +247,9 @@ def run_acceptor(ae, factory_plan, max_pdu_length=None, lazy=False):
                                                        max_pdu_length if max_pdu_length is not None
                                                        else ae.max_pdu_length)
         except BaseException as e:      # noqa - surfaced to the caller
+            from .common import HarnessError
+            if isinstance(e, HarnessError):
+                raise
             exc = e
     return acc, fac, exc
 
